@@ -119,7 +119,7 @@ static void mixedLeaves(const ContentSpecNode* n, std::vector<std::string>& out,
 
 static std::string runOne(const XMLCh* scanner, const std::string& doc, Rec& rec, bool wantTree,
                           const std::vector<int>& kids, std::string& tree, std::string& verdict,
-                          bool validate = true, const std::string* ext = 0) {
+                          bool validate = true, const std::string* ext = 0, bool ns = false) {
     CodeParser p;
     AttrHandler ah;
     ah.rec = &rec;
@@ -127,7 +127,7 @@ static std::string runOne(const XMLCh* scanner, const std::string& doc, Rec& rec
     p.rec = &rec;
     p.useScanner(scanner);
     p.setValidationScheme(validate ? SAXParser::Val_Always : SAXParser::Val_Never);
-    p.setDoNamespaces(false);
+    p.setDoNamespaces(ns);
     p.setDocumentHandler(&ah);
     if (ext) p.setEntityResolver(&ah);
     p.setErrorHandler(&ah);   // installs the parser as the scanner's XMLErrorReporter (our override records codes)
@@ -266,13 +266,25 @@ static std::string doAttr(const std::vector<std::string>& a) {
     std::string x2 = runOne(XMLUni::fgDGXMLScanner, doc, dgr, false, none, t, v, true);
     std::string x3 = runOne(XMLUni::fgIGXMLScanner, doc, nv, false, none, t, v, false);
     std::string x4 = runOne(XMLUni::fgDGXMLScanner, doc, nv2, false, none, t, v, false);
+    // the namespace-aware start-tag paths (scanStartTagNS / buildAttList) must behave the same: no name has a colon
+    Rec igns, dgns, nvns;
+    std::string x5 = runOne(XMLUni::fgIGXMLScanner, doc, igns, false, none, t, v, true, 0, true);
+    std::string x6 = runOne(XMLUni::fgDGXMLScanner, doc, dgns, false, none, t, v, true, 0, true);
+    std::string x7 = runOne(XMLUni::fgIGXMLScanner, doc, nvns, false, none, t, v, false, 0, true);
     std::sort(ig.codes.begin(), ig.codes.end());
     std::sort(dgr.codes.begin(), dgr.codes.end());
+    std::sort(igns.codes.begin(), igns.codes.end());
+    std::sort(dgns.codes.begin(), dgns.codes.end());
     std::string r;
-    if (!x1.empty() || !x2.empty() || !x3.empty() || !x4.empty())
-        return "exception IG:" + x1 + " DG:" + x2 + " IGnv:" + x3 + " DGnv:" + x4;
+    if (!x1.empty() || !x2.empty() || !x3.empty() || !x4.empty() || !x5.empty() || !x6.empty() || !x7.empty())
+        return "exception IG:" + x1 + " DG:" + x2 + " IGnv:" + x3 + " DGnv:" + x4 + " IGns:" + x5 + " DGns:" + x6 + " IGnsnv:" + x7;
     if (ig.codes != dgr.codes || ig.attrs != dgr.attrs)
         return "scanners-differ IG:" + join(ig.codes) + " " + joinWith(ig.attrs, "/") + " DG:" + join(dgr.codes) + " " + joinWith(dgr.attrs, "/");
+    if (ig.codes != igns.codes || ig.attrs != igns.attrs || ig.codes != dgns.codes || ig.attrs != dgns.attrs)
+        return "scanners-differ (namespaces on) IG:" + join(ig.codes) + " " + joinWith(ig.attrs, "/") + " IGns:" + join(igns.codes) + " "
+               + joinWith(igns.attrs, "/") + " DGns:" + join(dgns.codes) + " " + joinWith(dgns.attrs, "/");
+    if (nvns.attrs != ig.attrs || !nvns.codes.empty())
+        return "e=" + join(ig.codes) + " a=" + joinWith(ig.attrs, "/") + " NONVALIDATING-DIFFERS (namespaces on) a=" + joinWith(nvns.attrs, "/") + " e=" + join(nvns.codes);
     r = "e=" + join(ig.codes) + " a=" + joinWith(ig.attrs, "/");
     if (nv.attrs != ig.attrs || nv2.attrs != ig.attrs || !nv.codes.empty() || !nv2.codes.empty())
         r += " NONVALIDATING-DIFFERS a=" + joinWith(nv.attrs, "/") + " e=" + join(nv.codes) + " DG a=" + joinWith(nv2.attrs, "/") + " e=" + join(nv2.codes);
@@ -289,7 +301,7 @@ int main() {
         try {
             if (a.size() == 7 && a[0] == "cm") r = doCm(a);
             else if ((a.size() == 3 || a.size() == 4) && a[0] == "doc") r = doDoc(a);
-            else if (a.size() == 7 && a[0] == "attr") r = doAttr(a);
+            else if (a.size() == 7 && (a[0] == "attr" || a[0] == "tattr")) r = doAttr(a);
         } catch (...) {
             r = "harness-exception";
         }
